@@ -734,6 +734,7 @@ func (x *Exec) doGo(st *State, fi int, in *ssa.Go) {
 	// thread's sequential state. Record the callee for the evidence.
 	name := "go " + x.calleeName(&in.Call, x.val(st, fi, in.Call.Value))
 	x.goStmts[name] = true
+	x.goRequires(st, fi, in, name)
 	x.ghostAt(st, fi, "go "+x.calleeName(&in.Call, x.val(st, fi, in.Call.Value)), "", nil)
 }
 
@@ -786,6 +787,63 @@ func (x *Exec) doSelect(st *State, fi int, in *ssa.Select) {
 					x.ghostAtX(st, fi, fmt.Sprintf("select#%d", n2), "", nil, extra)
 				}
 			}
+		}
+	}
+}
+
+// goRequires: a goroutine started with `go f(args)` runs f on a NEW thread,
+// which holds none of the thread-local ghost permissions (worker token, ...):
+// f's preconditions are checked with all thread-local ghost variables false.
+func (x *Exec) goRequires(st *State, fi int, in *ssa.Go, anchor string) {
+	var ct *Contract
+	var args []Value
+	c := &in.Call
+	if c.IsInvoke() {
+		ct = x.w.findIfaceContract(c.Value.Type(), c.Method.Name())
+		args = append(args, x.val(st, fi, c.Value))
+	} else if f := c.StaticCallee(); f != nil {
+		ct = x.contractFor(f)
+	}
+	if ct == nil || len(ct.Requires) == 0 {
+		return
+	}
+	for _, a := range c.Args {
+		args = append(args, x.val(st, fi, a))
+	}
+	var tls []string
+	for _, cf := range x.w.contracts {
+		for _, ps := range cf.Protocols {
+			tls = append(tls, ps.ThreadLocal...)
+		}
+	}
+	st2 := st.clone()
+	for _, tl := range tls {
+		tl = strings.TrimSpace(tl)
+		if gv, ok := x.ghostVars[tl]; ok && gv.Sort == "Bool" {
+			st2.heap["G$"+tl] = FalseT
+		}
+	}
+	env := x.envFor(st2, fi, false)
+	env.fi = -1
+	env.pkg = x.w.typesPkg(ct.Pkg)
+	names := ct.ParamNames
+	if len(names) == len(args)-1 {
+		names = append([]string{"self"}, names...)
+	}
+	for i, a := range args {
+		if i < len(names) {
+			if a.T.S == "" && (a.Fn != nil || a.Loc != nil) {
+				continue
+			}
+			env.vars[names[i]] = a
+		}
+	}
+	for _, rq := range ct.Requires {
+		if t, ok := x.evalClause(st2, env, rq); ok {
+			// recorded on the spawning path (st), judged in the new thread's ghost state (st2)
+			ob := len(x.obls)
+			x.oblige(st2, "requires", rq.Label, anchor, t, in.Pos())
+			_ = ob
 		}
 	}
 }
